@@ -64,8 +64,9 @@ def apply_step(step: str, g: Any) -> tuple[Any, dict]:
         return unify_axes_tags(g), {}
     if step == "preprocess":
         from pytato.codegen import preprocess
-        from pytato.target.loopy import LoopyPyOpenCLTarget
-        res = preprocess(T.deduplicate(g), LoopyPyOpenCLTarget())
+        from ptverif import cexec
+        # (the harness' C target: a callee kernel must have the target of the program)
+        res = preprocess(T.deduplicate(g), cexec.make_target())
         rename = {k: export.data_name(np.asarray(v)) for k, v in res.bound_arguments.items()}
         return res.outputs, rename
     raise ValueError(step)
@@ -287,6 +288,13 @@ def programs(tier: str) -> list[dict]:
         else:
             p["pipeline"] = [str(s) for s in rng.choice(STEPS, size=int(rng.integers(2, 5)))]
         progs.append(p)
+    # graphs with calls to loopy kernels: their results are uninterpreted functions
+    # of the bound arguments at the specification level (PtSem "lpres")
+    for k, p in enumerate(progspace.fam_lpcall(rng, 60 if tier == "quick" else 600)):
+        p["id"] = p["id"].replace("/", "_")
+        p["pipeline"] = [STEPS[k % len(STEPS)]] if k % 3 else \
+            [str(s) for s in rng.choice(STEPS, size=int(rng.integers(2, 4)))]
+        progs.append(p)
     return progs
 
 
@@ -405,6 +413,9 @@ def build(prog: dict) -> dict:
                     k = (nd["loc_nt"], tuple(nd["kidlist"]))
                     twins = twins or k in seen_nt
                     seen_nt.add(k)
+                if any(nd["kind"] == "lpres" for nd in g_before["nodes"]):
+                    twins = True     # (what counts as materialised around loopy calls
+                    #                   is not part of the stated rule)
                 if twins:
                     res["mpms_rule_skipped_twins"] = res.get("mpms_rule_skipped_twins", 0) + 1
                 else:
